@@ -63,6 +63,11 @@ func c09Policy(threshold int, trust string) *hist.PolicySpec {
 		p.Apps = []hist.AppSpec{{Name: "APP", Key: "APPKEY", Trusted: true}}
 	case "untrusted":
 		p.Apps = []hist.AppSpec{{Name: "APP", Key: "APPKEY", Trusted: false}}
+	case "two-apps":
+		// a trusted app and a second, declared but untrusted one with its
+		// own key: what the second one vouches for must not be counted, even
+		// though the approvers' identities are known through the first
+		p.Apps = []hist.AppSpec{{Name: "APP", Key: "APPKEY", Trusted: true}, {Name: "APP2", Key: "APP2KEY", Trusted: false}}
 	}
 	return p
 }
@@ -99,6 +104,8 @@ func c09Apprs(thorough bool) []c09ApprV {
 		c09ApprV{Name: "appr(Y2@X,approvers=alice+bob,by=APPKEY)", Stmt: "Y2", Stored: "X", StoredApp: "APP", Approvers: []string{"alice", "bob"}, Signer: "APPKEY"},
 		c09ApprV{Name: "appr(X@Y3,approvers=alice+bob,by=APPKEY)", Stmt: "X", Stored: "Y3", StoredApp: "APP", Approvers: []string{"alice", "bob"}, Signer: "APPKEY"},
 		c09ApprV{Name: "appr(X@X,app=OTHER,approvers=alice+bob,by=APPKEY)", Stmt: "X", Stored: "X", StoredApp: "OTHER", Approvers: []string{"alice", "bob"}, Signer: "APPKEY"},
+		c09ApprV{Name: "appr(X@X,app=APP2,approvers=alice+bob,by=APP2KEY)", Stmt: "X", Stored: "X", StoredApp: "APP2", Approvers: []string{"alice", "bob"}, Signer: "APP2KEY"},
+		c09ApprV{Name: "appr(X@X,app=APP2,approvers=alice,by=APP2KEY)", Stmt: "X", Stored: "X", StoredApp: "APP2", Approvers: []string{"alice"}, Signer: "APP2KEY"},
 	)
 	return out
 }
@@ -195,7 +202,9 @@ func c09Run(cs c09Case, col *evid.Collector) {
 		switch {
 		case cs.After:
 			cause = "attestation-recorded-after-the-entry-counted"
-		case cs.Appr.Stmt != "" && cs.Trust == "trusted" && cs.Appr.Signer == "APPKEY" && cs.Appr.StoredApp == "APP" && cs.Appr.Stored == "X" && cs.Appr.Stmt != "X":
+		case cs.Appr.StoredApp == "APP2":
+			cause = "approval-from-a-second-untrusted-app-counted"
+		case cs.Appr.Stmt != "" && (cs.Trust == "trusted" || cs.Trust == "two-apps") && cs.Appr.Signer == "APPKEY" && cs.Appr.StoredApp == "APP" && cs.Appr.Stored == "X" && cs.Appr.Stmt != "X":
 			cause = "code-review-approval-for-another-change-counted:filed-under-the-lookup-path"
 		case cs.Auth.Stmt != "" && cs.Auth.Stored == "X" && cs.Auth.Stmt != "X":
 			cause = "authorization-for-another-change-counted:filed-under-the-lookup-path"
@@ -211,7 +220,7 @@ func c09Run(cs c09Case, col *evid.Collector) {
 	}
 	// completeness only when nothing invalid sits at the lookup path
 	clean := (cs.Auth.Stmt == "" || (cs.Auth.Stmt == "X" && cs.Auth.Stored == "X") || cs.Auth.Stored == "own") &&
-		(cs.Appr.Stmt == "" || (cs.Appr.Stmt == "X" && cs.Appr.Stored == "X" && cs.Appr.Signer == "APPKEY") || cs.Trust != "trusted" || cs.Appr.StoredApp != "APP")
+		(cs.Appr.Stmt == "" || (cs.Appr.Stmt == "X" && cs.Appr.Stored == "X" && cs.Appr.Signer == "APPKEY") || (cs.Trust != "trusted" && cs.Trust != "two-apps") || cs.Appr.StoredApp != "APP")
 	if err != nil && verdict.OK && clean {
 		col.Violation("C09:valid-approvals-not-counted:"+ec, desc+" ("+err.Error()+")", cs)
 	}
@@ -232,7 +241,7 @@ func TestC09(t *testing.T) {
 		}
 	}()
 	thorough := evid.Thorough()
-	col.Rule("full product of {threshold 2,3} x {app trusted, untrusted, absent} x {no authorization | v0.2 statement for the change X or a decoy (other ref / other prior state / other tree) stored at X's path or at its own path, signed by 7 signer sets incl. untrusted and non-rule keys | two v0.1 statements} x {no approval | approval for X at X with approvers {alice},{bob},{alice,bob},{stranger} x dismissed {},{alice} x signed by app key / untrusted key | approval for a decoy filed under X | approval for X filed under a decoy | filed under another app name} x entry signer {P0,P1,unknown,none} x attestation recorded before/after the entry (thorough: also for a tag); each case is a 4-5 entry history built on the real store with the attestation tree written directly (bypassing the validating setters) and verified with VerifyRefFull; oracle = reference credit function (exact change, once per principal, only the approvers list counted - a dismissed approver is one the writer removed from it -, only attestation state before the entry). A class is (threshold, trust, statement/storage classes, placement, outcomes)")
+	col.Rule("full product of {threshold 2,3} x {app trusted, untrusted, absent, a trusted app plus a second declared but untrusted app with its own key} x {no authorization | v0.2 statement for the change X or a decoy (other ref / other prior state / other tree) stored at X's path or at its own path, signed by 7 signer sets incl. untrusted and non-rule keys | two v0.1 statements} x {no approval | approval for X at X with approvers {alice},{bob},{alice,bob},{stranger} x dismissed {},{alice} x signed by app key / untrusted key | approval for a decoy filed under X | approval for X filed under a decoy | filed under another app name | filed under the second, untrusted app and signed with that app's key} x entry signer {P0,P1,unknown,none} x attestation recorded before/after the entry (thorough: also for a tag); each case is a 4-5 entry history built on the real store with the attestation tree written directly (bypassing the validating setters) and verified with VerifyRefFull; oracle = reference credit function (exact change, once per principal, only the approvers list counted - a dismissed approver is one the writer removed from it -, only attestation state before the entry). A class is (threshold, trust, statement/storage classes, placement, outcomes)")
 	col.Assume("GitHub approvals are represented by their attestation blobs (no network); v0.1 statements only in two representative variants; false rejections caused by an invalid blob sitting at the lookup path are not judged (the statement says what counts, not that such histories verify)")
 	if rf := evid.ReplayFile(); rf != "" {
 		var cs c09Case
@@ -250,10 +259,16 @@ func TestC09(t *testing.T) {
 	}
 	for _, tag := range tags {
 		for _, thr := range []int{2, 3} {
-			for _, trust := range []string{"trusted", "untrusted", "absent"} {
+			for _, trust := range []string{"trusted", "untrusted", "absent", "two-apps"} {
 				for _, au := range c09Auths(thorough) {
 					for _, ap := range c09Apprs(thorough) {
-						if ap.Stmt != "" && trust != "trusted" && !(ap.Stmt == "X" && ap.Stored == "X" && len(ap.Approvers) == 2 && len(ap.Dismissed) == 0 && ap.Signer == "APPKEY") {
+						if ap.StoredApp == "APP2" && trust != "two-apps" {
+							continue // the second app is only declared in the two-apps policies
+						}
+						if ap.Stmt != "" && trust == "two-apps" && ap.StoredApp != "APP2" && !(ap.Stmt == "X" && ap.Stored == "X" && len(ap.Dismissed) == 0 && ap.Signer == "APPKEY") {
+							continue // two apps: approvals of the untrusted one, and the plain ones of the trusted one
+						}
+						if ap.Stmt != "" && trust != "trusted" && trust != "two-apps" && !(ap.Stmt == "X" && ap.Stored == "X" && len(ap.Approvers) == 2 && len(ap.Dismissed) == 0 && ap.Signer == "APPKEY") {
 							continue // untrusted/absent app: one representative approval
 						}
 						if tag && ap.Stmt != "" {
